@@ -11,7 +11,7 @@
    parts, never grow a validly encoded input), written as a function on byte sequences.  TLC
    checks in every generated state that the design satisfies the abstract relation DataUriOK
    (D => A) for every kind of registered minifier, plus the sanity of the codecs themselves. *)
-EXTENDS DataUriDesign, TLC
+EXTENDS DataUriDesign, DataUriAsIs, TLC
 CONSTANTS MaxLen, Alphabet, Kinds
 VARIABLES mt, enc, pay, kind
 vars == <<mt, enc, pay, kind>>
@@ -64,6 +64,12 @@ Calls == LET pi == Parse(U)  d == Decode(pi) IN
 DesignOK == DataUriOK(U, Design(U, kind), Regs, Calls)
 \* the design is a projection: a second pass changes nothing (no minifier registered)
 DesignIdem == kind = "none" => Design(Design(U, kind), kind) = Design(U, kind)
+(* the transcription of the pinned code (DataUriAsIs) violates the relation only on the narrow constructs
+   of the pinned findings: K1..K5a decided on the input, K5b = the moderately growing minifier *)
+AsIsOKOutsideKnown ==
+  LET o == AsIsUri(U, kind # "none", LAMBDA x : SubFn(kind, x))
+      c == IF kind = "none" THEN <<>> ELSE AsIsCalls(U, LAMBDA x : SubFn(kind, x))
+  IN ~DataUriOK(U, o, Regs, c) => (KnownUri(U) \/ kind = "grow3")
 \* codecs: encode/decode round trips, encoders produce validly encoded text of the predicted length
 CodecOK == /\ B64Strict(B64Encode(pay)) /\ B64Decode(B64Encode(pay)) = pay
            /\ PctValid(PctEncodeWith(pay, MustEscape)) /\ PctDecode(PctEncodeWith(pay, MustEscape)) = pay
@@ -78,4 +84,5 @@ Alpha14 == Alpha11 \cup {50, 70, 38}                           \* + 2 F &
 AlphaAll == 0..255
 KindsAll == {"none", "id", "shrink", "grow3", "grow64"}
 KindsNone == {"none"}
+KindsQuick == {"none", "shrink", "grow3"}
 =============================================================================
